@@ -383,10 +383,12 @@ def canon_cached(v):
     return valtext.canon(v)
 
 
-RAISE_TOUCHED = frozenset(["__traceback__", "__context__", "__cause__", "__suppress_context__"])   # set by `raise` itself
+# slots the interpreter manages itself: `raise` rewrites them, and assigning __cause__ flips __suppress_context__.
+# Whether an assignment to them is accepted or raises IS compared (the environment table); their values are not.
+RAISE_TOUCHED = frozenset(["__traceback__", "__context__", "__cause__", "__suppress_context__"])
 
 
-def obj_text(ex, m, c, slots, after_raise=False):
+def obj_text(ex, m, c, slots, after_raise=True):
     """canonical text of a received exception object (same shape as Driver/Vinegar.lean's showObj, attrs sorted);
     after_raise: the object went through a `raise` statement, which rewrites the RAISE_TOUCHED slots"""
     from rpyc.core import vinegar
@@ -485,7 +487,7 @@ def canon_model_line(line):
     res["init"] = int(toks[k + 1])
     out = " ".join(toks[k + 3:])
     if out.startswith("exc "):
-        out = "exc " + sort_model_obj(out[4:])
+        out = "exc " + sort_model_obj(out[4:], True)
     elif out.startswith("str "):
         out = "str " + out[4:]
     res["out"] = out
